@@ -37,6 +37,8 @@ def run(ctx):
     unprotected_checksum_by_version(ctx, P)
     v2_judged_as_v3(ctx, P)
     sec1_points_have_the_uncompressed_length(ctx, P)
+    declared_key_material_fully_consumed(ctx, P)
+    mpi_writer_refuses_what_the_reader_refuses(ctx, P)
     s2k_specifier_length_agrees(ctx, P)
     stored_length_encoding(ctx, P)
     stored_length_checked_against_data(ctx, P)
@@ -1317,3 +1319,64 @@ def sec1_points_have_the_uncompressed_length(ctx, P):
                       fixed or guarded, function=p, site=site(b, i),
                       missing=None if (fixed or guarded) else 'from_sec1_bytes at %s is handed the MPI octets as they came: a compressed point (33 / 49 / 67 octets) is accepted and written back uncompressed' % site(b, i))
     ctx.floor(P + ':S05-19:floor', 'SEC1 point decodings in the public-parameter readers', n, 7)
+
+
+def declared_key_material_fully_consumed(ctx, P):
+    """A v6 key packet announces the octet count of its public key material.  The parsers read the material through a reader limited to
+    that count (`read_take(pub_len)`); whatever the algorithm-specific reader leaves unread inside the limit is dropped when the
+    limited reader goes away - the key is then written back (and fingerprinted) with another count than the packet had.  Every key
+    parser that limits a reader by the announced count tests the limited reader for leftovers (rejecting) before it returns Ok."""
+    from rules.c19 import _root_place
+    from rules.common import err_exit_blocks
+    n = 0
+    for p, r in sorted(ctx.f.bodies.items()):
+        if not re.match(r'packet::(public_key_parser|secret_key_parser)::', p) or '::tests::' in p:
+            continue
+        b = ctx.wrap(r)
+        takes = [(i, t) for i, t in b.calls(r'BufReadParsing::read_take$')]
+        if not takes or not b.calls(r'PublicParams::try_from_reader$'):
+            continue
+        defs = single_defs(b)
+        oks = [x for x in ok_exit_blocks(b) if x not in set(err_exit_blocks(b))]
+        for k, (i, t) in enumerate(takes):
+            n += 1
+            tl = t['d']['l']
+            probes = [j for j, tt in b.calls(r'BufReadParsing::has_remaining$') if tt['args'] and (_root_place(b, tt['args'][0], defs) or (None,))[0] == tl]
+            gs = []
+            for j in probes:
+                gs += [g for g, _ in guard_switches(b, oks, [r'cs:.*has_remaining#%d$' % j])]
+            after = b.reach_from([t['t']]) if t.get('t') is not None else set()
+            ok = bool(gs) and all(b.find_path(t['t'], {x}, removed=frozenset(gs)) is None for x in oks if x in after)
+            ctx.check('%s:S05-20:declared-key-material-consumed:%s#%d' % (P, p, k), 'R-dom', '%s refuses a key whose announced material count is not used up by the algorithm-specific reader' % p.split('::')[-1],
+                      ok, function=p, site=site(b, i),
+                      missing=None if ok else 'the reader limited at %s is not tested for leftovers: surplus octets inside the announced count are dropped and the key gets another count (and fingerprint) when written' % site(b, i))
+    ctx.floor(P + ':S05-20:floor', 'key parsers that limit a reader by the announced material count', n, 2)
+
+
+def mpi_writer_refuses_what_the_reader_refuses(ctx, P):
+    """The MPI reader refuses a bit count above MAX_EXTERN_MPI_BITS.  An Mpi built in memory (`Mpi::from_slice` of a long slice) can be
+    longer; if the writer emits it anyway the library has written bytes it cannot parse back.  The writer compares the bit size it is
+    about to announce with the same constant the reader compares the announced count with (rejecting)."""
+    from rules.common import direct_cmp_switches, is_call_to
+    rb = ctx.body('types::mpi::Mpi::try_from_reader')
+    wb = ctx.body('<types::mpi::Mpi as ser::Serialize>::to_writer')
+    if rb is None or wb is None:
+        ctx.missing(P + ':S05-21:mpi-writer-bound', 'Mpi reader / writer not found')
+        return
+    defs = single_defs(rb)
+    rc = set()
+    for g, t in rb.switches():
+        kind, v = resolve_value(rb, t['o'], defs)
+        if kind == 'rv' and v['k'] == 'bin' and v['op'] in ('Gt', 'Ge', 'Lt', 'Le'):
+            sides = [resolve_value(rb, o, defs) for o in v['o']]
+            for a, c in ((0, 1), (1, 0)):
+                if sides[c][0] == 'const' and isinstance(sides[c][1], int) and has_origin(rb.operand_origins(v['o'][a]), r'call:.*read_be_u16$'):
+                    rc.add(sides[c][1])
+    oks = ok_exit_blocks(wb)
+    wc = set()
+    for g, _ in guard_switches(wb, oks, [r'call:.*bit_size$']):
+        og = wb.switch_origins(g)
+        wc |= set(int(m.group(1)) for m in (re.match(r'const:(\d+):', x) for x in og) if m)
+    ctx.check(P + ':S05-21:mpi-writer-bound', 'R-sib', 'Mpi::to_writer refuses a bit size above the bound at which Mpi::try_from_reader refuses an announced count',
+              bool(rc) and bool(rc & wc), function=wb.path, table=dict(reader=sorted(rc), writer=sorted(wc)),
+              missing=None if (rc and rc & wc) else 'the reader refuses counts above %s, the writer has no rejecting comparison of the bit size with that bound: an Mpi of more bits is written and cannot be read back' % sorted(rc))
